@@ -347,6 +347,10 @@ type scanInput struct {
 	Scan    string `json:"scan"`
 	Subject LRec   `json:"subject"`
 	Pop     []LRec `json:"population"`
+	// provider_earnings_keeper only: earnings exist in a second denomination as well (as after a
+	// governance change of the base denomination), and the base denomination in force
+	TwoDenoms bool   `json:"two_denoms,omitempty"`
+	BaseDenom string `json:"base_denom,omitempty"`
 }
 
 type scanDef struct {
@@ -392,6 +396,10 @@ func genScanInput(t *rapid.T) interface{} {
 	}
 	if pct(t, "subject_in_pop", 70) {
 		in.Pop = append(in.Pop, in.Subject)
+	}
+	if name == "provider_earnings_keeper" && pct(t, "two_denoms", 50) {
+		in.TwoDenoms = true
+		in.BaseDenom = pick(t, "scan_base_denom", []string{"", "point"})
 	}
 	return in
 }
@@ -452,28 +460,41 @@ func checkScan(x interface{}) (*Violation, []string, bool) {
 		}
 	} else {
 		// keeper-level: provider earnings
-		w := NewWorld(defaultConfig())
+		cfg := defaultConfig()
+		cfg.BaseDenom = in.BaseDenom
+		w := NewWorld(cfg)
+		earn := func(i int) sdk.Coins {
+			c := sdk.NewCoins(sdk.NewCoin("stake", sdk.NewInt(int64(1)<<uint(i%40))))
+			if in.TwoDenoms && i%2 == 1 {
+				c = c.Add(sdk.NewCoin("point", sdk.NewInt(3*(int64(1)<<uint(i%20)))))
+			}
+			return c
+		}
 		for i, r := range pop {
-			w.k.SetEarnedFees(w.ctx, addr(r.A), sdk.NewCoins(sdk.NewCoin("stake", sdk.NewInt(int64(1)<<uint(i%40)))))
+			w.k.SetEarnedFees(w.ctx, addr(r.A), earn(i))
 		}
 		fees, _ := w.k.GetEarnedFees(w.ctx, addr(in.Subject.A))
-		var wantAmt int64
+		wantC := sdk.NewCoins()
 		for i, r := range pop {
 			if r.A == in.Subject.A {
-				wantAmt += int64(1) << uint(i%40)
+				wantC = wantC.Add(earn(i)...)
 			}
 		}
-		if stakeOf(fees) != wantAmt {
+		if !fees.IsEqual(wantC) {
 			return &Violation{Prop: "C18", Sig: "c18:scan:" + in.Scan,
-				Msg: fmt.Sprintf("earned fees of provider %s read as %s, its own records hold %d (population %d)", in.Subject.A, fees, wantAmt, len(pop))}, nil, false
+				Msg: fmt.Sprintf("earned fees of provider %s read as %q, its own records hold %q (population %d, base denomination %q)", in.Subject.A, fees, wantC, len(pop), cfg.baseDenom())}, nil, false
 		}
 		w.k.DeleteEarnedFees(w.ctx, addr(in.Subject.A))
+		if left, _ := w.k.GetEarnedFees(w.ctx, addr(in.Subject.A)); !left.IsZero() {
+			return &Violation{Prop: "C18", Sig: "c18:scan:" + in.Scan,
+				Msg: fmt.Sprintf("deleting the earnings of provider %s left %q behind", in.Subject.A, left)}, nil, false
+		}
 		for i, r := range pop {
 			if r.A == in.Subject.A {
 				continue
 			}
 			f, _ := w.k.GetEarnedFees(w.ctx, addr(r.A))
-			if stakeOf(f) != int64(1)<<uint(i%40) {
+			if !f.IsEqual(earn(i)) {
 				return &Violation{Prop: "C18", Sig: "c18:scan:" + in.Scan,
 					Msg: fmt.Sprintf("deleting the earnings of provider %s changed those of %s", in.Subject.A, r.A)}, nil, false
 			}
